@@ -1085,9 +1085,23 @@ fn birth_meta() -> MetaData {
         description: Some("déscription".into()),
         content_type: Some("text/plain".into()),
         size: Some(u64::MAX),
-        md5: Some("d41d8cd98f00b204e9800998ecf8427e".into()),
-        file_name: Some("f.bin".into()),
+        // a well formed digest rendered with upper AND lower case hex digits: text the library must not touch
+        md5: Some("D41D8CD98F00B204e9800998ecf8427E".into()),
+        file_name: Some("F.Bin".into()),
         file_type: None,
+    }
+}
+/// the payload metadata the property demands for `birth_meta()`, written out by hand (never through srad's `From`)
+fn birth_meta_spec() -> PMeta {
+    PMeta {
+        mp: None,
+        ct: Some("text/plain".into()),
+        size: Some(u64::MAX),
+        seq: None,
+        fname: Some("F.Bin".into()),
+        ftype: None,
+        md5: Some("D41D8CD98F00B204e9800998ecf8427E".into()),
+        desc: Some("déscription".into()),
     }
 }
 fn birth_props() -> PropertySet {
@@ -1103,7 +1117,7 @@ fn birth_props() -> PropertySet {
 /// host's store is told in `update_from_birth` for the metrics `bm` and `bn` of a node / device birth
 fn check_birth_metrics(rec: &[RecCall]) -> Vec<String> {
     let mut fails = vec![];
-    let want_meta = pmeta_from_srad(&birth_meta().into());
+    let want_meta = birth_meta_spec();
     let want_props = {
         let pp: payload::PropertySet = birth_props().into();
         show_pset(&pset_from_srad(&pp), true)
@@ -1907,7 +1921,13 @@ fn field_feature(w: &World, p: &Pm, field: &str) -> String {
         "historical" => format!("historical-{}", ob(p.hi)),
         "transient" => format!("transient-{}", ob(p.tr)),
         "flags" => format!("transient-{}-historical-{}", ob(p.tr), ob(p.hi)),
-        "metadata" => if p.meta.is_some() { "metadata-given".into() } else { "metadata-absent".into() },
+        "metadata" => match &p.meta {
+            None => "metadata-absent".into(),
+            Some(m) => match &m.md5 {
+                Some(d) => format!("metadata-given-{}", md5_shape(d)),
+                None => "metadata-given-md5-absent".into(),
+            },
+        },
         "properties" => match &p.props {
             None => "properties-absent".into(),
             Some(u) if nested(u) => "properties-nested".into(),
@@ -2708,14 +2728,79 @@ fn random_ostr(rng: &mut Rng) -> Option<String> {
         None
     }
 }
+/// the shape of an md5 string (the discriminating trait of a metadata finding)
+pub fn md5_shape(s: &str) -> &'static str {
+    let hex = !s.is_empty() && s.bytes().all(|b| b.is_ascii_hexdigit());
+    let up = s.bytes().any(|b| b.is_ascii_uppercase());
+    let lo = s.bytes().any(|b| b.is_ascii_lowercase());
+    match (hex, s.len()) {
+        (true, 32) => match (up, lo) {
+            (true, true) => "md5-32hex-mixedcase",
+            (true, false) => "md5-32hex-uppercase",
+            (false, true) => "md5-32hex-lowercase",
+            _ => "md5-32hex-digits",
+        },
+        (true, _) => "md5-hex-other-length",
+        _ if s.is_empty() => "md5-empty",
+        _ => "md5-not-hex",
+    }
+}
+/// md5 strings as users really produce them: digests rendered `{:02x}` / `{:02X}` / mixed, digits only, one character
+/// short or long, 32 characters with one non-hex character, surrounded by whitespace, empty, `md5:`-prefixed, base64
+fn random_md5(rng: &mut Rng) -> String {
+    let digest = |rng: &mut Rng, n: usize, case: u64| -> String {
+        (0..n)
+            .map(|_| {
+                let c = b"0123456789abcdef"[rng.below(16) as usize] as char;
+                match case {
+                    0 => c,
+                    1 => c.to_ascii_uppercase(),
+                    _ => if rng.chance(1, 2) { c.to_ascii_uppercase() } else { c },
+                }
+            })
+            .collect()
+    };
+    match rng.below(12) {
+        0 => digest(rng, 32, 0),
+        1 | 2 => { let mut s = digest(rng, 31, 1); s.push('F'); s }
+        3 | 4 => { let mut s = digest(rng, 30, 2); s.push_str("aB"); s }
+        5 => (0..32).map(|_| (b'0' + rng.below(10) as u8) as char).collect(),
+        6 => { let c = rng.below(3); digest(rng, 31, c) }
+        7 => { let c = rng.below(3); digest(rng, 33, c) }
+        8 => { let mut s = digest(rng, 31, 1); s.insert(rng.below(32) as usize, *rng.pick(&['G', 'g', '-', ' ', 'é'])); s }
+        9 => format!(" {}\n", digest(rng, 32, 1)),
+        10 => String::new(),
+        _ => format!("{}{}", rng.pick(&["md5:", "MD5=", "0x"]), digest(rng, 32, 2)),
+    }
+}
+/// the other metadata strings with contents of their kind: media types with parameters and upper case, file names with
+/// paths / spaces / upper-case extensions / trailing dots, descriptions with surrounding white space and line breaks
+fn random_meta_text(rng: &mut Rng, field: u32) -> String {
+    let pool: &[&str] = match field {
+        0 => &["  padded description  ", "line one\nline two\r\n", "\tTAB", "UPPER lower MiXeD", "", " "],
+        1 => &["Application/JSON", "text/plain; charset=UTF-8", "TEXT/PLAIN", " text/plain", "application/x-raw ", "", "*/*", "no-slash"],
+        2 => &["C:\\Dir\\File.BIN", "/abs/path/../f.bin", "name with spaces.txt", "UPPER.TXT", ".hidden", "trailing.", "", "a/", "Ünïcode.dat"],
+        _ => &["BIN", ".bin", "Tar.Gz", "", " bin", "application/octet-stream"],
+    };
+    rng.pick(pool).to_string()
+}
 fn random_emeta(rng: &mut Rng) -> EMeta {
+    // half of the metadata carry field-shaped strings, the other half arbitrary Unicode
+    let shaped = rng.chance(1, 2);
+    let mut text = |rng: &mut Rng, field: u32| -> Option<String> {
+        if shaped && rng.chance(2, 3) {
+            Some(random_meta_text(rng, field))
+        } else {
+            random_ostr(rng)
+        }
+    };
     EMeta {
-        desc: random_ostr(rng),
-        ct: random_ostr(rng),
+        desc: text(rng, 0),
+        ct: text(rng, 1),
         size: if rng.chance(1, 2) { Some(rnd_bits(rng)) } else { None },
-        md5: random_ostr(rng),
-        fname: random_ostr(rng),
-        ftype: random_ostr(rng),
+        md5: if shaped { Some(random_md5(rng)) } else { random_ostr(rng) },
+        fname: text(rng, 2),
+        ftype: text(rng, 3),
     }
 }
 
@@ -2758,6 +2843,9 @@ fn random_pm(ids: &[(String, &'static str)], rng: &mut Rng, tsmode: u32, out: &m
         out.count(&format!("prop-nesting-depth:{}", match ups_depth(u) { 1 => "1", 2 => "2", 3..=4 => "3-4", 5..=8 => "5-8", 9..=16 => "9-16", 17..=32 => "17-32", _ => "33+" }));
     }
     out.count(if meta.is_some() { "metadata:some" } else { "metadata:none" });
+    if let Some(d) = meta.as_ref().and_then(|m| m.md5.as_ref()) {
+        out.count(&format!("metadata:{}", md5_shape(d)));
+    }
     out.count(if props.is_some() { "properties:some" } else { "properties:none" });
     Pm {
         id,
@@ -3050,7 +3138,7 @@ fn mutate_qm(q: &mut Qm, rng: &mut Rng, out: &mut Out) {
     }
 }
 
-pub const RULE: &str = "end to end through the real NodeHandle/DeviceHandle -> recording client -> prost encode -> topic_and_payload_to_event -> AppEventLoop / Application -> recording MetricStore: every registered metric (27 Rust types incl. a user type carrying data sets / templates / extension values, by name and by alias, node and device) x value/null x transient n/t/f x historical n/t/f (exhaustive, single publishes through publish_metric and try_publish_metric); the marker combinations identifier kind x value x flags x default/custom timestamp x metadata x properties (exhaustive, 288); every timestamp assignment over {1,2,3} for batches of up to 5 (thorough 6) metrics through the sorting variants (exhaustive); random batches of size 1..=64 (thorough: ..=200) through all six publish variants on node and device with spread / few distinct / all-equal timestamps, random metadata and property sets (random keys incl. empty, all 15 scalar property types incl. DateTime and, through user property types, Text and UUID, nulls, nested sets and set lists to depth 3, one set in 16 at the bottom of a chain of up to 40 nested sets, quality Good/Bad/Stale); every property datatype x null / boundary values alone beside Quality on a data metric and, through `BirthMetricDetails::with_properties` and a real rebirth, on a birth metric of the NBIRTH and of the DBIRTH (exhaustive); nesting depth 1..=40 x nested directly / through set lists, on data and on birth metrics (exhaustive, within 90 protobuf levels); random property sets on birth metrics; empty batches; host conversion alone on the payloads the edge really produced and on mutated ones (identifier/timestamp/value/is_null/datatype/metadata markers, malformed property sets) for NDATA and DDATA, all 1296 marker combinations of a payload metric (exhaustive), payload seq/timestamp absent and out of range; NBIRTH/DBIRTH payloads built from the same metrics with name/datatype/bdSeq present, absent and out of range; payload property sets alone: 648 count/marker/type-code combinations (exhaustive) plus mutated random sets. Non-trivial = every case (each executes at least one conversion); distinct = distinct op lines (hashed).";
+pub const RULE: &str = "end to end through the real NodeHandle/DeviceHandle -> recording client -> prost encode -> topic_and_payload_to_event -> AppEventLoop / Application -> recording MetricStore: every registered metric (27 Rust types incl. a user type carrying data sets / templates / extension values, by name and by alias, node and device) x value/null x transient n/t/f x historical n/t/f (exhaustive, single publishes through publish_metric and try_publish_metric); the marker combinations identifier kind x value x flags x default/custom timestamp x metadata x properties (exhaustive, 288); every timestamp assignment over {1,2,3} for batches of up to 5 (thorough 6) metrics through the sorting variants (exhaustive); random batches of size 1..=64 (thorough: ..=200) through all six publish variants on node and device with spread / few distinct / all-equal timestamps, random metadata (arbitrary Unicode and field-shaped strings: md5 digests of every case/length shape, media types, file names) and property sets (random keys incl. empty, all 15 scalar property types incl. DateTime and, through user property types, Text and UUID, nulls, nested sets and set lists to depth 3, one set in 16 at the bottom of a chain of up to 40 nested sets, quality Good/Bad/Stale); every property datatype x null / boundary values alone beside Quality on a data metric and, through `BirthMetricDetails::with_properties` and a real rebirth, on a birth metric of the NBIRTH and of the DBIRTH (exhaustive); nesting depth 1..=40 x nested directly / through set lists, on data and on birth metrics (exhaustive, within 90 protobuf levels); random property sets on birth metrics; empty batches; host conversion alone on the payloads the edge really produced and on mutated ones (identifier/timestamp/value/is_null/datatype/metadata markers, malformed property sets) for NDATA and DDATA, all 1296 marker combinations of a payload metric (exhaustive), payload seq/timestamp absent and out of range; NBIRTH/DBIRTH payloads built from the same metrics with name/datatype/bdSeq present, absent and out of range; payload property sets alone: 648 count/marker/type-code combinations (exhaustive) plus mutated random sets. Non-trivial = every case (each executes at least one conversion); distinct = distinct op lines (hashed).";
 
 pub fn run(args: &Args, out: &mut Out) -> &'static str {
     let mut rng = Rng::new(args.seed);
@@ -3089,6 +3177,55 @@ pub fn run(args: &Args, out: &mut Out) -> &'static str {
         e2e_case(out, "n", "pm", &[p], "single-exhaustive-markers");
     }
     out.exhaustive.push("identifier kind x value/null x transient x historical x default/custom timestamp x metadata x properties (288 combinations)".into());
+
+    // --- metadata strings: every md5 shape and every field-shaped text, alone in an otherwise plain metadata ---
+    {
+        let mk = |f: &dyn Fn(&mut EMeta)| {
+            let mut m = EMeta::default();
+            f(&mut m);
+            m
+        };
+        let mut metas: Vec<EMeta> = vec![];
+        for d in [
+            "d41d8cd98f00b204e9800998ecf8427e", "D41D8CD98F00B204E9800998ECF8427E", "D41d8cd98f00b204e9800998ecf8427E", "00000000000000000000000000000000",
+            "01234567890123456789012345678901", "D41D8CD98F00B204E9800998ECF8427", "D41D8CD98F00B204E9800998ECF8427E0", "G41D8CD98F00B204E9800998ECF8427E",
+            " D41D8CD98F00B204E9800998ECF8427E", "D41D8CD9-8F00B204-E9800998-ECF8427E", "", "MD5:D41D8CD98F00B204E9800998ECF8427E", "1B2M2Y8AsgTpgAmY7PhCfg==",
+            "ABCDEFABCDEFABCDEFABCDEFABCDEFAB", "abcdefabcdefabcdefabcdefabcdefab",
+        ] {
+            metas.push(mk(&|m| m.md5 = Some(d.to_string())));
+        }
+        for field in 0..4u32 {
+            let mut seen: Vec<String> = vec![];
+            for _ in 0..64 {
+                let t = random_meta_text(&mut rng, field);
+                if seen.contains(&t) {
+                    continue;
+                }
+                seen.push(t.clone());
+                // also the digest-shaped strings in the fields that are NOT md5
+                for t in [t, "D41D8CD98F00B204E9800998ECF8427E".to_string()] {
+                    metas.push(mk(&|m| match field {
+                        0 => m.desc = Some(t.clone()),
+                        1 => m.ct = Some(t.clone()),
+                        2 => m.fname = Some(t.clone()),
+                        _ => m.ftype = Some(t.clone()),
+                    }));
+                }
+            }
+        }
+        metas.dedup();
+        for (who, ids) in [("n", &nids), ("d", &dids)] {
+            let id = p_id(&parse_tree(&ids.iter().find(|(i, k)| *k == "i32" && i.starts_with('N')).unwrap().0).unwrap()).unwrap();
+            for m in &metas {
+                if let Some(d) = &m.md5 {
+                    out.count(&format!("metadata:{}", md5_shape(d)));
+                }
+                let p = Pm { id: id.clone(), val: Some(Val::I(7)), tr: None, hi: None, ts: Some(11), meta: Some(m.clone()), props: None };
+                e2e_case(out, who, "pm", &[p], "metadata-string-shapes");
+            }
+        }
+        out.exhaustive.push("md5 shapes (32 hex lower/upper/mixed/digits, 31/33 hex, non-hex, padded, dashed, empty, prefixed, base64) and field-shaped description/content type/file name/file type strings, each alone in a metadata, node and device".into());
+    }
 
     // --- properties: every property datatype x value / null, on data metrics and on birth metrics ---
     {
